@@ -198,6 +198,10 @@ func cmdCheck(args []string) {
 		if ob.Kind == "cover" {
 			return true
 		}
+		// facts that later obligations rely on must be established by the same check
+		if ob.Kind == "inv-entry" || ob.Kind == "inv-preserved" || ob.Kind == "pre" || ob.Kind == "lockinv" {
+			return true
+		}
 		if res, ok := funcMatch[ob.Fn]; ok {
 			hit := false
 			for _, re := range res {
@@ -301,6 +305,19 @@ func cmdCheck(args []string) {
 			}
 		}
 		sort.Strings(names)
+		newSet := map[string]bool{}
+		for _, n := range names {
+			newSet[n] = true
+		}
+		for old := range claimed {
+			if !newSet[old] {
+				st := "no longer generated"
+				if ob, ok := byName[old]; ok {
+					st = ob.Status
+				}
+				fmt.Printf("CLAIM-DROPPED %s [%s]\n", old, st)
+			}
+		}
 		os.MkdirAll(filepath.Dir(claimsPath), 0o755)
 		os.WriteFile(claimsPath, []byte(strings.Join(names, "\n")+"\n"), 0o644)
 		claimed = map[string]bool{}
